@@ -40,7 +40,7 @@ bool iso(const GraphSnap& ga, NiObject* a, const GraphSnap& gb, NiObject* b, boo
 	blocks++;
 	if (ba.type != bb.type) { cls = "type/" + ba.type; err = "source block " + ba.type + " was cloned as " + bb.type; return false; }
 	bool boneContainer = dynamic_cast<NiBoneContainer*>(a) != nullptr;   // bone pointer lists are rebuilt by name (checked through the bone list)
-	if (!top && !boneContainer && ba.canon != bb.canon && !(modelSpaceStripped && ba.type == "NiSkinPartition")) {
+	if (!top && !boneContainer && ba.canon != bb.canon && !(modelSpaceStripped && (ba.type == "NiSkinPartition" || dynamic_cast<NiGeometryData*>(a)))) {
 		size_t d = 0;
 		while (d < ba.canon.size() && d < bb.canon.size() && ba.canon[d] == bb.canon[d]) d++;
 		cls = "payload/" + ba.type;
@@ -164,12 +164,21 @@ void cloneCheck(NifFile& src, NiShape* srcShape, NifFile& dst, bool sameModel, c
 		R_stat("cloned_blocks_compared", blocks);
 		// accessor level: geometry, shader, textures, skin
 		auto recDst = shapeRecord(dst, cname);
-		if (recDst != recSrc) {
-			std::string dc = diffClass(recSrc, recDst);
-			// Skyrim: normals and tangents of model-space shaded shapes are dropped on purpose by CloneShape
-			auto shader = src.GetShader(srcShape);
-			bool ms = shader && shader->IsModelSpace() && (dst.GetHeader().GetVersion().IsSK() || dst.GetHeader().GetVersion().IsSSE());
-			if (!(ms && (dc == "nv" || dc == "normals" || dc == "tangents"))) { R_viol("clone", "accessor/" + vclass + "/" + dc, w + ": clone answers differently from its source: " + firstDiff(recSrc, recDst)); return; }
+		{
+			// Skyrim: normals and tangents of model-space shaded shapes are dropped on purpose by CloneShape; everything else must agree
+			auto strip = [&](const std::vector<std::string>& r) {
+				if (!modelSpaceStripped) return r;
+				std::vector<std::string> o;
+				for (auto& l : r)
+					if (l.rfind("  nv=", 0) != 0 && l.rfind("  normals", 0) != 0 && l.rfind("  tangents", 0) != 0 && l.rfind("  sseCompat", 0) != 0) o.push_back(l);
+				return o;
+			};
+			auto a = strip(recSrc), b = strip(recDst);
+			if (a != b) { R_viol("clone", "accessor/" + vclass + "/" + diffClass(a, b), w + ": clone answers differently from its source: " + firstDiff(a, b)); return; }
+			if (modelSpaceStripped) {
+				if (c->GetNumVertices() != srcShape->GetNumVertices() || c->GetNumTriangles() != srcShape->GetNumTriangles()) { R_viol("clone", "accessor/" + vclass + "/counts", w + ": vertex / triangle counts of the clone differ"); return; }
+				R_stat("model_space_clones_checked");
+			}
 		}
 		// bones
 		std::vector<std::string> dstBones;
@@ -263,7 +272,7 @@ void init() {
 		ApiOpts ao;
 		ao.segments = i % 2 == 0;
 		ao.partitions = i % 3 == 0;
-		ao.modelSpace = i % 4 == 1;
+		ao.modelSpace = (i % 6 == 2 || i % 6 == 3) && (i / 6) % 2 == 0;   // every second SK / SSE model
 		ApiModel m = buildApiModel(mix(g_cfg.seed, 0xC14A00 + (uint64_t)i), i, &ao);
 		if (m.ok) g_models.push_back({"api:" + m.desc, m.bytes});
 	}
